@@ -103,9 +103,9 @@ pub fn load(workload_dir: &str, key_seed: u64, progress: bool, timeout: Duration
 /// Which children compute the solo result of task `idx`: `REPLICAS` different processes with
 /// different hash keys (the "fresh process" clause), instead of every child computing everything.
 pub const REPLICAS: u64 = 3;
-pub fn slice_owners(idx: u64, of: u64) -> Vec<u64> {
+pub fn slice_owners(idx: u64, of: u64, replicas: u64) -> Vec<u64> {
     let mut v: Vec<u64> = vec![];
-    for r in 0..REPLICAS.min(of) {
+    for r in 0..replicas.min(REPLICAS).min(of) {
         let o = (idx + r * (of / REPLICAS.min(of)).max(1)) % of;
         if !v.contains(&o) {
             v.push(o);
@@ -124,7 +124,8 @@ pub fn slice_main(workload_dir: &str, seed: u64, index: u64, of: u64, out: &str,
     let mut lines = String::new();
     let mut n = 0u64;
     for (i, t) in tasks.iter().enumerate() {
-        let owners = slice_owners(i as u64, of);
+        // three processes for the module's own and the hand-picked option sets, two for the rows of the covering array
+        let owners = slice_owners(i as u64, of, if t.opt_name.starts_with('c') { 2 } else { REPLICAS });
         if !owners.contains(&index) {
             continue;
         }
